@@ -1059,12 +1059,12 @@ impl Gen {
     // `truncate` moves the memory: only this arena value learns the new address. Owned handles
     // (they hold clones), typed handles (they cache a pointer) and the other arena values must
     // be gone before; borrowed byte buffers re-read the pointer through the arena and stay.
-    // a DETACHED owned handle may stay alive across the truncate too: it holds an arena value (refs() > 1) but never
-    // touches the memory again
+    // a DETACHED owned handle stays alive across the truncate too (`hold`): it holds an arena value (refs() > 1) but
+    // never touches the memory again
     let kept: Vec<u32> = if self.rng.chance(25) {
       let h = self.fresh_h();
       if self.emit(format!("alloc_bytes_owned {h} 8")).starts_with("r=ok") {
-        self.emit(format!("detach {h}"));
+        self.emit(format!("hold {h}"));
         vec![h]
       } else {
         vec![]
